@@ -60,7 +60,9 @@ let api_table : (string * schema) list = [
   "HeaderBody", headerBodyPraos; "Header", headerPraos; "Block", blockPraos depth; "ValueEmptyAssets", value;
   (* stream (ii) only: Rust identifies keys that are equal as data but written differently (definite / indefinite
      list, original bytes), so model-generated maps with such keys are outside the writer image *)
-  "PlutusMap", plutusMap depth ] @ table
+  "PlutusMap", plutusMap depth;
+  (* stream (iii): a FixedTransaction is a transaction on the wire *)
+  "FixedTransaction", transaction depth ] @ table
 
 (* ---------- PRNG (SplitMix64) ---------- *)
 let st = ref 0L
@@ -205,7 +207,7 @@ let gen_mode seed tier out =
   st := Int64.of_string seed;
   ignore (next ());
   let oc = open_out out in
-  let per = if tier = "thorough" then 1200 else 64 in
+  let per = if tier = "thorough" then 800 else 64 in
   List.iter (fun (name, s) ->
       (* wfs s = true is a theorem (ledger_schemas_wf, for every depth); it is not re-evaluated here: the
          unrolled PlutusData schema at depth 3 has 130^3 nodes as a tree *)
@@ -272,6 +274,35 @@ let run_mode () = run_driver (fun toks impl ->
         | ["deerr"; hb] ->
           let b = bytes_of_hex hb in
           (model_of b, if api_holds b false [] true then "holds" else "fails:-")
+        | ["panic"] -> ("model-nobytes", "fails:-")
+        | _ -> ("driver-badimpl", "na")))
+  | ["mut"; name; _op; _seed; variant; _src] ->
+    (* stream (iii): a decoded value was mutated through one setter / add / insert and encoded again; the harness compared the
+       re-decoded value with the mutated one field by field through the accessors (flags).  The model must accept the new
+       bytes and re-encode them identically, and - where the setter's argument has a stand-alone serialisation that is also
+       its embedded form - must find exactly those bytes under the field's key (token f<key>=<hex|~>). *)
+    (match List.assoc_opt name api_table with
+     | None -> ("skip unmodelled-type", "na")
+     | Some s ->
+       (match impl with
+        | "ok" :: hb :: hre :: rest ->
+          let b = bytes_of_hex hb in
+          let ftok = List.filter (fun t -> String.length t > 1 && t.[0] = 'f' && String.contains t '=') rest in
+          let flags = List.filter (fun t -> not (List.mem t ftok)) rest in
+          let fmodel = List.map (fun t ->
+              let i = String.index t '=' in
+              let k = String.sub t 1 (i - 1) in
+              "f" ^ k ^ "=" ^ (match api_model_field s b (n_of_string k) with Some fb -> hex_of_bytes fb | None -> "~")) ftok in
+          let model = (match api_model_accepts s b with
+            | Some re -> let h = hex_of_bytes re in String.concat " " (["ok"; h; h] @ fmodel)
+            | None ->
+              (* re-framed sources (set tags stripped, indefinite outer container) may keep a form the model's decoder
+                 does not read: the accessor comparison alone judges these *)
+              if variant <> "0" then String.concat " " (["ok"; hb; hre] @ ftok)
+              else (match dec s b with Ok (_, []) -> "model-outside-domain" | Ok (_, _) -> "model-trailing" | _ -> "model-err")) in
+          (model, if api_holds b true (bytes_of_hex hre) (flags = []) then "holds" else "fails:-")
+        | ["deerr"; hb] -> ("model-n/a", "fails:-")
+        | "skip" :: _ -> (String.concat " " impl, "na")
         | ["panic"] -> ("model-nobytes", "fails:-")
         | _ -> ("driver-badimpl", "na")))
   | ["bad_schema"; name] -> ("bad_schema", "fails:model-schema-" ^ name)
